@@ -229,7 +229,7 @@ def write_evidence(pid, tier, seed, specs, results, wall, walls, violations, kno
     ev_dir = os.path.join(VERIF, "evidence")
     os.makedirs(ev_dir, exist_ok=True)
     decided = [s for s in specs if results[s.name]["status"] in ("pass", "fail")]
-    nontriv = [s for s in decided if results[s.name].get("covers_unsat", 0) == 0]
+    nontriv = [s for s in decided if results[s.name].get("covers_unsat", 0) == 0 or s.covers_required is False]
     fns = sorted(set(s.fn for s in specs))
     solver_s = sum((results[s.name].get("cbmc") or {}).get("runtime_solver_s", 0) or 0 for s in specs)
     symex_s = sum((results[s.name].get("cbmc") or {}).get("runtime_symex_s", 0) or 0 for s in specs)
